@@ -241,9 +241,9 @@ def _pyabel_direct_integral(f, r, correction, int_func=trapezoid):
 
 def is_uniform_sampling(r):
     """
-    Returns True if the array is uniformly spaced to within 1e-13.
-    Otherwise False.
+    Returns True if the array is uniformly spaced to within 1e-13 of its
+    largest coordinate. Otherwise False.
     """
     dr = np.diff(r)
     ddr = np.diff(dr)
-    return np.allclose(ddr, 0, atol=1e-13)
+    return np.allclose(ddr, 0, atol=1e-13 * np.max(np.abs(r)))
